@@ -246,6 +246,24 @@ theorem castMask_rejects_undescribed (segs : List Nat) (t : SegType) (ps : List 
     (hpl : pl ∈ ps) (hv : v ∈ pl) (hnot : v ∉ 0 :: segs) : castMask segs t (.intLabel ps) = .error .value :=
   reject_undescribed segs t ps pl v hpl hv hnot
 
+/-! Open finding `C01-float-labelmap-undescribed` (guide §7.4).  Full statement that does **not** hold of the code:
+
+    theorem castMask_rejects_undescribed_float (segs) (ps : List (List Rat)) (pl ∈ ps) (1 ∈ pl) (1 ∉ segs) :
+        castMask segs .labelmap (.fltLabel ps) = .error .value
+
+(a binary 3-D float mask is segment number 1; if 1 is not described the mask must be refused exactly like the
+integer mask in `castMask_rejects_undescribed`).  Proved instead: the integer/bool case in full
+(`castMask_rejects_undescribed`) and the counterexample on the witness of the finding. -/
+
+/-- the float mask [[1.0]] with descriptions [3] is accepted and stored under the undescribed label 1 ... -/
+theorem counterexample_float_label_undescribed :
+    castMask [3] .labelmap (.fltLabel [[1]]) = .ok (.intLabel [[1]], .no) := by decide +kernel
+
+/-- ... whereas the same mask as an integer array is refused -/
+theorem castMask_rejects_undescribed_partial :
+    castMask [3] .labelmap (.intLabel [[1]]) = .error .value :=
+  castMask_rejects_undescribed [3] .labelmap [[1]] [1] 1 (by simp) (by simp) (by decide)
+
 /-- a stacked (4-D) integer mask that is not binary -/
 theorem castMask_rejects_nonbinary_stack (segs : List Nat) (t : SegType) (ps : List (List (List Nat)))
     (pl : List (List Nat)) (ch : List Nat) (v : Nat) (hpl : pl ∈ ps) (hch : ch ∈ pl) (hv : v ∈ ch) (h2 : 1 < v) :
